@@ -1,7 +1,7 @@
 #!/bin/bash
 # tools/run_all.sh [quick|thorough] [IDs...] — runs the checks on /repo as it is, one after the other,
 # and validates every evidence file against the schema.
-cd /verif
+cd "$(dirname "${BASH_SOURCE[0]}")/.."
 TIER="${1:-quick}"; shift || true
 IDS="${*:-C01 C02 C03 C04 C05 C06 C07 C08 C09 C10 C11 C12 C13 C14 C15 C16 C17 C18 C19 C20}"
 rc=0
@@ -15,9 +15,9 @@ done
 python3-vt - <<'PY'
 import json, jsonschema, glob
 sch = json.load(open('/root/.vp/EVIDENCE.schema.json'))
-for f in sorted(glob.glob('/verif/evidence/*.json')):
+for f in sorted(glob.glob('evidence/*.json')):
     jsonschema.validate(json.load(open(f)), sch)
-jsonschema.validate(json.load(open('/verif/MANIFEST.json')), json.load(open('/root/.vp/MANIFEST.schema.json')))
+jsonschema.validate(json.load(open('MANIFEST.json')), json.load(open('/root/.vp/MANIFEST.schema.json')))
 print("evidence + manifest validate")
 PY
 exit $rc
